@@ -151,6 +151,21 @@ func lambdaOpts(rc *callRec, bits int, designated ...string) []compose.Option {
 	return opts
 }
 
+// badPathOpt: a lambda option of the call designated to a node that does not exist
+func badPathOpt(rc *callRec, bits int, path ...string) []compose.Option {
+	if bits&optBadPath == 0 {
+		return nil
+	}
+	return []compose.Option{compose.WithLambdaOption(lopt{Tag: rc.tag, Val: "bad"}).DesignateNodeWithPath(compose.NewNodePath(path...))}
+}
+
+func mBadPathOpt(bits int, path ...string) []string {
+	if bits&optBadPath == 0 {
+		return nil
+	}
+	return []string{opT(0, "bad", path)}
+}
+
 var codecV = codec[V, V]{chunkIn: oneChunk[V], concatOut: lastOf[V], render: func(v V) string { return v.String() }}
 var codecM = codec[map[string]any, map[string]any]{
 	chunkIn: func(m map[string]any) []map[string]any {
@@ -254,6 +269,7 @@ func buildPregel(r *lib.Rng, z *zoo) (*object, error) {
 	}
 	d.edge("j", compose.END)
 	mshared := []string{opT(0, "S", keysAsPaths("a", par[0])...)}
+	shared = spare(shared) // spare capacity: an append to the options inside a run must not reach it
 	return &object{
 		desc: d,
 		mcall: func(sp spec, si int) string {
@@ -262,17 +278,18 @@ func buildPregel(r *lib.Rng, z *zoo) (*object, error) {
 				max = 5
 			}
 			return callTerm(vR(selfTag, 0, lims[sp.In%len(lims)], fmt.Sprintf("in%d", sp.In)),
-				mWithShared(sp.Opt, mshared, mLambdaOpts(si, sp.Opt, des...)), max)
+				mWithShared(sp.Opt, mshared, append(mLambdaOpts(si, sp.Opt, des...), mBadPathOpt(sp.Opt, "nosuch")...)), max)
 		},
 		kind: "pregel", shape: []string{fmt.Sprintf("width:%d", w), fmt.Sprintf("failing:%v", failing)},
 		nIn: len(lims), paras: allParas,
 		optSet: []int{0, optLambdaDesignated, optLambdaGlobal, optCbGlobal, optCbThree | optCbDesignated, optMaxSteps,
 			optMaxSteps | optCbGlobal, optCtxHandlers, optCtxHandlers | optCbDesignated | optLambdaDesignated,
-			optShared, optShared | optLambdaDesignated | optCbGlobal, optShared | optMaxSteps},
+			optShared, optShared | optLambdaDesignated | optCbGlobal, optShared | optMaxSteps, optBadPath, optBadPath | optCbGlobal | optLambdaGlobal},
 		baseCtx: sharedCtx,
 		call: func(ctx context.Context, rc *callRec, sp spec) string {
 			in := V{ID: rc.tag, Lim: lims[sp.In%len(lims)], H: fmt.Sprintf("in%d", sp.In)}
 			opts := append(lambdaOpts(rc, sp.Opt, des...), cbOptions(rc, sp.Opt, cbPar)...)
+			opts = append(opts, badPathOpt(rc, sp.Opt, "nosuch")...)
 			if sp.Opt&optMaxSteps != 0 {
 				opts = append(opts, compose.WithRuntimeMaxSteps(5))
 			}
@@ -399,6 +416,7 @@ func buildDag(r *lib.Rng, z *zoo) (*object, error) {
 		compose.WithCallbacks(sharedHandler("sd")).DesignateNode(all[len(all)-1]),
 	}
 	mshared := []string{opT(0, "S", []string{all[0]}), opT(0, "SG")}
+	shared = spare(shared) // spare capacity: an append to the options inside a run must not reach it
 	return &object{
 		desc: d,
 		mcall: func(sp spec, si int) string {
@@ -507,6 +525,7 @@ func buildWorkflow(r *lib.Rng, z *zoo) (*object, error) {
 	d.fmap(compose.START, "m", [2]string{"ID", "ID"})
 	d.statics = append(d.statics, [3]string{"m", "S", "static"})
 	mshared := []string{opT(0, "S", []string{"l"}, []string{"m"})}
+	shared = spare(shared) // spare capacity: an append to the options inside a run must not reach it
 	return &object{
 		desc: d,
 		mcall: func(sp spec, si int) string {
